@@ -163,7 +163,7 @@ def random_history(u, rnd, length, p=None):
 # replay into the real store
 # ------------------------------------------------------------------------------------------------
 
-def run_storedrv(bindir, upath, histories, wd, tag, filters_path=None, extra=False, shards=None, timeout=900):
+def run_storedrv(bindir, upath, histories, wd, tag, filters_path=None, extra=False, shards=None, timeout=900, on_disk=False):
     """histories: list of op lists.  Returns list of trace file paths (one per shard)."""
     shards = shards or min(NCPU, max(1, len(histories) // 50))
     files = []
@@ -185,6 +185,12 @@ def run_storedrv(bindir, upath, histories, wd, tag, filters_path=None, extra=Fal
             cmd += ["--filters", filters_path]
         if extra:
             cmd.append("--extra")
+        if on_disk:
+            # the stores of these histories live on the disk file system of /verif (not on tmpfs): what a mapping shows of
+            # bytes written beyond the end of its file differs between file systems
+            dd = os.path.join(wd, "disk")
+            os.makedirs(dd, exist_ok=True)
+            cmd += ["--tmp", dd]
         procs.append((subprocess.Popen(cmd, stdout=subprocess.PIPE, stderr=subprocess.STDOUT), hp, tp, cmd))
         files.append(tp)
     t0 = time.time()
